@@ -286,6 +286,17 @@ impl<T> RcInner<T> {
 impl<T: RcObject> RcInner<T> {
     #[inline]
     pub(crate) unsafe fn decrement_strong(ptr: *mut Self, count: u32, guard: Option<&Guard>) {
+        // The epoch stamped below must be read inside the critical section: a thread that reads it
+        // unpinned can be delayed arbitrarily before the CAS and publish a stamp that is already
+        // old, which lets the recursive destruction reclaim the object too early.
+        let pinned;
+        let guard = match guard {
+            Some(guard) => guard,
+            None => {
+                pinned = cs();
+                &pinned
+            }
+        };
         vy!(110, ptr, count);
         let epoch = global_epoch();
         vy!(1010, ptr, epoch);
@@ -312,19 +323,11 @@ impl<T: RcObject> RcInner<T> {
             vy!(1012, ptr, 0);
         };
 
-        let trigger_recl = |guard: &Guard| {
-            if hit_zero {
-                guard.defer_with_inner(ptr, |inner| Self::try_destruct(inner));
-            }
-            // Periodically triggers a collection.
-            guard.incr_manual_collection();
-        };
-
-        if let Some(guard) = guard {
-            trigger_recl(guard)
-        } else {
-            trigger_recl(&cs())
+        if hit_zero {
+            guard.defer_with_inner(ptr, |inner| Self::try_destruct(inner));
         }
+        // Periodically triggers a collection.
+        guard.incr_manual_collection();
     }
 
     #[inline]
